@@ -22,7 +22,7 @@
 //
 // Line protocol: one scenario per stdin line
 //
-//	e2e run id=<s> seed=<n> up=<bytes> down=<bytes> max=<n> proxies=<n> stall=<ms> hard=<ms> faults=<rule;rule;...|->
+//	e2e run id=<s> seed=<n> up=<bytes> down=<bytes> max=<n> proxies=<n> stall=<ms> hard=<ms> [second=<bytes>] faults=<rule;rule;...|->
 //
 // all scenarios run concurrently; one result line per scenario, in input order.
 package main
@@ -222,6 +222,7 @@ type spec struct {
 	proxies int
 	stall   time.Duration // no progress and no disturbance for this long = stalled
 	hard    time.Duration // absolute limit
+	second  int           // >= 0: a second Dial on the same Transport with streams of this size
 	faults  []*rule
 }
 
@@ -244,7 +245,7 @@ func parseSpec(line string) (*spec, error) {
 	if len(f) < 2 || f[0] != "e2e" || f[1] != "run" {
 		return nil, fmt.Errorf("bad case line")
 	}
-	s := &spec{max: 2, proxies: 2, stall: 90 * time.Second, hard: 600 * time.Second}
+	s := &spec{max: 2, proxies: 2, stall: 90 * time.Second, hard: 600 * time.Second, second: -1}
 	for _, t := range f[2:] {
 		kv := strings.SplitN(t, "=", 2)
 		if len(kv) != 2 {
@@ -269,6 +270,8 @@ func parseSpec(line string) (*spec, error) {
 			s.stall = time.Duration(n) * time.Millisecond
 		case "hard":
 			s.hard = time.Duration(n) * time.Millisecond
+		case "second":
+			s.second = int(n)
 		case "faults":
 			if v == "-" {
 				break
@@ -550,6 +553,7 @@ func runScenario(sp *spec) string {
 	atomic.StoreInt64(&s.progress, time.Now().UnixNano())
 	go s.timeRules(dialT)
 
+	app.tr = tr
 	return app.run(conn)
 }
 
@@ -1230,8 +1234,10 @@ func newFront(s *scen, brokerURL string) (*front, error) {
 	return f, nil
 }
 
-func (f *front) url() string { return fmt.Sprintf("http://127.0.0.1:%d/", f.ln.Addr().(*net.TCPAddr).Port) }
-func (f *front) close()      { f.srv.Close() }
+func (f *front) url() string {
+	return fmt.Sprintf("http://127.0.0.1:%d/", f.ln.Addr().(*net.TCPAddr).Port)
+}
+func (f *front) close() { f.srv.Close() }
 
 // ---------------------------------------------------------------- STUN and NAT probe
 
@@ -1367,20 +1373,43 @@ type dirResult struct {
 	mismatch int64
 }
 
+// pair is one client connection (Transport.Dial) with its two streams and the server
+// connection that belongs to it.
+type pair struct {
+	tag      string // "" for the first dial, "2" for the second
+	up, down *dirResult
+	cc, sc   net.Conn
+	srvUp    chan struct{}
+	upDone   chan struct{}
+	downDone chan struct{}
+	started  bool
+}
+
 type app struct {
 	s        *scen
-	up, down *dirResult
+	tr       *sfclient.Transport
+	pairs    []*pair
 	accepted int32
-	first    chan net.Conn
+	dials    int32
+	acc      chan net.Conn
 	closing  int32
-	extraSrv int64 // bytes received on server connections other than the first
+	extraSrv int64 // bytes received on server connections nobody dialled
 	mu       sync.Mutex
 }
 
+func newPair(tag string, seed int64, up, down int) *pair {
+	return &pair{tag: tag, srvUp: make(chan struct{}), upDone: make(chan struct{}), downDone: make(chan struct{}),
+		up:   &dirResult{want: stream(seed*2+1, up), mismatch: -1},
+		down: &dirResult{want: stream(seed*2+2, down), mismatch: -1}}
+}
+
 func newApp(s *scen) *app {
-	return &app{s: s, first: make(chan net.Conn, 1),
-		up:   &dirResult{want: stream(s.sp.seed*2+1, s.sp.up), mismatch: -1},
-		down: &dirResult{want: stream(s.sp.seed*2+2, s.sp.down), mismatch: -1}}
+	a := &app{s: s, acc: make(chan net.Conn, 16)}
+	a.pairs = append(a.pairs, newPair("", s.sp.seed, s.sp.up, s.sp.down))
+	if s.sp.second >= 0 {
+		a.pairs = append(a.pairs, newPair("2", s.sp.seed+1000003, s.sp.second, s.sp.second))
+	}
+	return a
 }
 
 func (a *app) acceptLoop(l *sfserver.SnowflakeListener) {
@@ -1391,11 +1420,11 @@ func (a *app) acceptLoop(l *sfserver.SnowflakeListener) {
 		}
 		n := atomic.AddInt32(&a.accepted, 1)
 		a.s.logp("server accepted connection %d", n)
-		if n == 1 {
-			a.first <- c
+		if int(n) <= len(a.pairs) {
+			a.acc <- c
 			continue
 		}
-		// a second connection must never appear; drain and count what it carries
+		// more connections than dials must never appear; drain and count what they carry
 		go func(c net.Conn) {
 			buf := make([]byte, 4096)
 			for {
@@ -1410,8 +1439,7 @@ func (a *app) acceptLoop(l *sfserver.SnowflakeListener) {
 }
 
 // writer writes d.want in chunks of varying size.
-func (a *app) writer(c net.Conn, d *dirResult, rng *rand.Rand, wg *sync.WaitGroup) {
-	defer wg.Done()
+func (a *app) writer(c net.Conn, d *dirResult, rng *rand.Rand) {
 	sizes := []int{1, 2, 7, 64, 500, 1024, 1400, 4096, 16384, 65536, 200000}
 	off := 0
 	for off < len(d.want) {
@@ -1492,49 +1520,86 @@ func (a *app) reader(c net.Conn, d *dirResult, rng *rand.Rand, done chan struct{
 	}
 }
 
+// startPair runs the four pumps of one dialled connection. The server end is the next
+// connection the server accepts (accept order = dial order: the second dial happens
+// long after the first connection was accepted).
+func (a *app) startPair(p *pair, cc net.Conn, seed int64) {
+	a.mu.Lock()
+	p.cc = cc
+	p.started = true
+	a.mu.Unlock()
+	atomic.AddInt32(&a.dials, 1)
+	go a.writer(cc, p.up, rand.New(rand.NewSource(seed*7+1)))
+	go a.reader(cc, p.down, rand.New(rand.NewSource(seed*7+2)), p.downDone)
+	go func() {
+		sc := <-a.acc
+		a.mu.Lock()
+		p.sc = sc
+		a.mu.Unlock()
+		close(p.srvUp)
+		go a.writer(sc, p.down, rand.New(rand.NewSource(seed*7+3)))
+		a.reader(sc, p.up, rand.New(rand.NewSource(seed*7+4)), p.upDone)
+	}()
+}
+
+func (p *pair) completeLocked() bool {
+	return p.started && p.up.wdone && p.down.wdone && len(p.up.got) >= len(p.up.want) && len(p.down.got) >= len(p.down.want)
+}
+
 func (a *app) complete() bool {
 	a.mu.Lock()
 	defer a.mu.Unlock()
-	return a.up.wdone && a.down.wdone && len(a.up.got) >= len(a.up.want) && len(a.down.got) >= len(a.down.want)
+	for _, p := range a.pairs {
+		if !p.completeLocked() {
+			return false
+		}
+	}
+	return true
 }
 
 func (a *app) broken() bool {
 	a.mu.Lock()
 	defer a.mu.Unlock()
-	for _, d := range []*dirResult{a.up, a.down} {
-		if d.mismatch >= 0 || d.werr != "" || d.rerr != "" {
-			return true
+	for _, p := range a.pairs {
+		for _, d := range []*dirResult{p.up, p.down} {
+			if d.mismatch >= 0 || d.werr != "" || d.rerr != "" {
+				return true
+			}
 		}
 	}
-	return atomic.LoadInt32(&a.accepted) > 1
+	return atomic.LoadInt32(&a.accepted) > atomic.LoadInt32(&a.dials)
 }
 
 func (a *app) run(cc net.Conn) string {
 	s := a.s
 	sp := s.sp
 	t0 := time.Now()
-	var wg sync.WaitGroup
-	upDone, downDone := make(chan struct{}), make(chan struct{})
-	// client end
-	wg.Add(1)
-	go a.writer(cc, a.up, rand.New(rand.NewSource(sp.seed*7+1)), &wg)
-	go a.reader(cc, a.down, rand.New(rand.NewSource(sp.seed*7+2)), downDone)
-	// server end, once the server hands us the connection
-	var sc net.Conn
-	srvUp := make(chan struct{})
-	go func() {
-		sc = <-a.first
-		close(srvUp)
-		wg.Add(1)
-		go a.writer(sc, a.down, rand.New(rand.NewSource(sp.seed*7+3)), &wg)
-		a.reader(sc, a.up, rand.New(rand.NewSource(sp.seed*7+4)), upDone)
-	}()
+	a.startPair(a.pairs[0], cc, sp.seed)
 
 	status := ""
+	dialErr := ""
 	var quiet, idle time.Duration
 	for status == "" {
 		time.Sleep(50 * time.Millisecond)
 		now := time.Now()
+		// the second connection of the same client (same Transport): dialled once the first
+		// one has been through a redial, at the latest when the first one is complete
+		if len(a.pairs) > 1 && !a.pairs[1].started {
+			_, carriers, _, _ := s.relay.stats()
+			a.mu.Lock()
+			firstDone := a.pairs[0].completeLocked()
+			a.mu.Unlock()
+			if carriers >= 2 || firstDone {
+				c2, err := a.tr.Dial()
+				if err != nil {
+					dialErr = err.Error()
+					status = "dialerror"
+					break
+				}
+				s.logp("second Dial on the same Transport (carriers so far %d)", carriers)
+				a.startPair(a.pairs[1], c2, sp.seed+1000003)
+			}
+		}
 		s.mu.Lock()
 		active := s.activeFault
 		dist := s.disturbed
@@ -1567,26 +1632,32 @@ func (a *app) run(cc net.Conn) string {
 		// anything more that arrives now is duplicated or foreign
 		time.Sleep(400 * time.Millisecond)
 	}
-	// close: client first; the server end must then see a clean EOF
+	// close: client ends first
 	atomic.StoreInt32(&a.closing, 1)
 	// SnowflakeConn.Close blocks inside smux for as long as the session cannot write
 	// (a stalled stream); that is outside C01, the rig just must not wait for it.
+	srvEOF := "-"
 	closed := make(chan struct{})
-	go func() { cc.Close(); close(closed) }()
+	go func() {
+		for _, p := range a.pairs {
+			a.mu.Lock()
+			c := p.cc
+			a.mu.Unlock()
+			if c != nil {
+				c.Close()
+			}
+		}
+		close(closed)
+	}()
 	select {
 	case <-closed:
 		select {
-		case <-downDone:
+		case <-a.pairs[0].downDone:
 		case <-time.After(3 * time.Second):
 		}
-	case <-time.After(3 * time.Second):
-	}
-	srvEOF := "-"
-	select {
-	case <-srvUp:
 		if status == "done" {
 			select {
-			case <-upDone:
+			case <-a.pairs[0].upDone:
 				srvEOF = "yes"
 			case <-time.After(1 * time.Second):
 				// SnowflakeConn.Close tears the carriers down right after queueing the
@@ -1594,8 +1665,15 @@ func (a *app) run(cc net.Conn) string {
 				srvEOF = "no"
 			}
 		}
-		sc.Close()
-	default:
+	case <-time.After(3 * time.Second):
+	}
+	for _, p := range a.pairs {
+		a.mu.Lock()
+		c := p.sc
+		a.mu.Unlock()
+		if c != nil {
+			c.Close()
+		}
 	}
 	conns, carriers, refused, per := s.relay.stats()
 
@@ -1603,17 +1681,22 @@ func (a *app) run(cc net.Conn) string {
 	defer a.mu.Unlock()
 	var b strings.Builder
 	fmt.Fprintf(&b, "id=%s status=%s", sp.id, status)
-	for _, x := range []struct {
-		n string
-		d *dirResult
-	}{{"up", a.up}, {"down", a.down}} {
-		d := x.d
-		hw := sha256.Sum256(d.want[:d.written])
-		hr := sha256.Sum256(d.got)
-		cls, at := classify(d)
-		fmt.Fprintf(&b, " %s.size=%d %s.w=%d %s.r=%d %s.extra=%d %s.wsha=%s %s.rsha=%s %s.mis=%d %s.cls=%s %s.at=%s %s.werr=%s %s.rerr=%s",
-			x.n, len(d.want), x.n, d.written, x.n, len(d.got), x.n, d.extra, x.n, hex.EncodeToString(hw[:8]), x.n, hex.EncodeToString(hr[:8]),
-			x.n, d.mismatch, x.n, cls, x.n, at, x.n, q(d.werr), x.n, q(d.rerr))
+	if dialErr != "" {
+		fmt.Fprintf(&b, " err=%s", q(dialErr))
+	}
+	for _, p := range a.pairs {
+		for _, x := range []struct {
+			n string
+			d *dirResult
+		}{{"up" + p.tag, p.up}, {"down" + p.tag, p.down}} {
+			d := x.d
+			hw := sha256.Sum256(d.want[:d.written])
+			hr := sha256.Sum256(d.got)
+			cls, at := classify(d)
+			fmt.Fprintf(&b, " %s.size=%d %s.w=%d %s.r=%d %s.extra=%d %s.wsha=%s %s.rsha=%s %s.mis=%d %s.cls=%s %s.at=%s %s.werr=%s %s.rerr=%s",
+				x.n, len(d.want), x.n, d.written, x.n, len(d.got), x.n, d.extra, x.n, hex.EncodeToString(hw[:8]), x.n, hex.EncodeToString(hr[:8]),
+				x.n, d.mismatch, x.n, cls, x.n, at, x.n, q(d.werr), x.n, q(d.rerr))
+		}
 	}
 	s.mu.Lock()
 	fired := strings.Join(s.fired, ",")
@@ -1622,8 +1705,8 @@ func (a *app) run(cc net.Conn) string {
 	if fired == "" {
 		fired = "-"
 	}
-	fmt.Fprintf(&b, " accepted=%d extrasrv=%d srveof=%s conns=%d carriers=%d per=%s refused=%d proxies=%d live=%d polling=%d polls=%d answers=%d quiet=%d idle=%d ms=%d fired=%s",
-		atomic.LoadInt32(&a.accepted), atomic.LoadInt64(&a.extraSrv), srvEOF, conns, carriers, per, refused, starts, live, polling,
+	fmt.Fprintf(&b, " dials=%d accepted=%d extrasrv=%d srveof=%s conns=%d carriers=%d per=%s refused=%d proxies=%d live=%d polling=%d polls=%d answers=%d quiet=%d idle=%d ms=%d fired=%s",
+		atomic.LoadInt32(&a.dials), atomic.LoadInt32(&a.accepted), atomic.LoadInt64(&a.extraSrv), srvEOF, conns, carriers, per, refused, starts, live, polling,
 		atomic.LoadInt32(&s.front.polls), atomic.LoadInt32(&s.front.answers), quiet.Milliseconds(), idle.Milliseconds(), elapsed.Milliseconds(), fired)
 	return b.String()
 }
